@@ -38,6 +38,7 @@ type Config struct {
 	LazyFeas      bool     `json:"lazy_feas"`
 	ExpectViolation bool   `json:"expect_violation"` // reach twin
 	Verbose       int      `json:"-"`
+	Thorough      bool     `json:"-"`
 	TimeBudgetS   float64  `json:"time_budget_s"`
 	forkRe        []*regexp.Regexp
 	mergeRe       []*regexp.Regexp
@@ -148,6 +149,7 @@ type Stats struct {
 	SchedPoints                                 int
 	Unwinds                                     int
 	Terms                                       int
+	CacheHits                                   int
 }
 
 func (s *Stats) add(o *Stats) {
@@ -171,6 +173,7 @@ func (s *Stats) add(o *Stats) {
 	s.SchedPoints += o.SchedPoints
 	s.Unwinds += o.Unwinds
 	s.Terms += o.Terms
+	s.CacheHits += o.CacheHits
 }
 
 // PathResult is what one run (one decision prefix) produced.
@@ -212,7 +215,7 @@ type Exec struct {
 
 	nondets   []NondetRec
 	nondetOcc map[string]int
-	observes  []string
+	observes  []observeRec
 
 	nobj      int
 	steps     int
@@ -228,6 +231,7 @@ type Exec struct {
 	sched     []int
 
 	watched    map[*Value]bool
+	unsatCache map[string]bool
 	syncs      map[*Value]*syncSt
 	resched    bool
 	deadlocked bool
@@ -295,6 +299,15 @@ func (e *Exec) query(timeout float64, extra ...*smt.Term) smt.Result {
 			return smt.Unsat
 		}
 	}
+	// unsat answers stay valid when the path condition grows: cache them per (guards, extra)
+	var ckey string
+	if len(extra) == 1 {
+		ckey = fmt.Sprintf("%d|%d", e.guardConj().ID, extra[0].ID)
+		if e.unsatCache[ckey] {
+			e.stats.CacheHits++
+			return smt.Unsat
+		}
+	}
 	tq := time.Now()
 	r := e.sol.Check(time.Duration(timeout*float64(time.Second)), asserts...)
 	if qlog {
@@ -307,8 +320,11 @@ func (e *Exec) query(timeout float64, extra ...*smt.Term) smt.Result {
 		}
 		fmt.Printf("    query %d asserts -> %s %.2fs  [%s]\n", len(asserts), r, time.Since(tq).Seconds(), last)
 	}
-	if r != smt.Sat {
-		// model scope is only kept for sat
+	if r == smt.Unsat && ckey != "" {
+		if e.unsatCache == nil {
+			e.unsatCache = map[string]bool{}
+		}
+		e.unsatCache[ckey] = true
 	}
 	return r
 }
@@ -379,6 +395,11 @@ func (e *Exec) decideNX(site string, conds []*smt.Term, allFeasible bool) int {
 }
 
 type Desync struct{ Why string }
+
+type observeRec struct {
+	label string
+	vals  []Value
+}
 
 func (e *Exec) decideBool(fr *Frame, in ssa.Instruction, c *smt.Term, site string) bool {
 	return e.decideN(site, []*smt.Term{c, e.ctx.Not(c)}) == 0
@@ -543,7 +564,53 @@ func (e *Exec) violationFromModel(kind, label, where string) Violation {
 		}
 		v.Values = append(v.Values, rv)
 	}
-	v.Observe = append(v.Observe, e.observes...)
+	for _, o := range e.observes {
+		line := o.label + ":"
+		var ts2 []*smt.Term
+		for _, x := range o.vals {
+			if t, ok := x.(*smt.Term); ok && !t.IsConst() && t.Sort.K != smt.KArr {
+				ts2 = append(ts2, t)
+			}
+		}
+		var vals2 []string
+		if len(ts2) > 0 {
+			vals2, _ = e.sol.Values(ts2)
+		}
+		k := 0
+		for _, x := range o.vals {
+			switch t := x.(type) {
+			case *smt.Term:
+				var bits uint64
+				ok := true
+				if t.IsConst() {
+					bits = t.K
+				} else {
+					ok = false
+					if k < len(vals2) {
+						bits, ok = smt.ParseValue(vals2[k], t.Sort)
+					}
+					k++
+				}
+				switch {
+				case !ok:
+					line += " ?"
+				case t.Sort.K == smt.KBool:
+					line += fmt.Sprintf(" %v", bits == 1)
+				case t.Sort.K == smt.KInt && t.Sort.Signed:
+					line += fmt.Sprintf(" %d", smt.SignExt(bits, int(t.Sort.W)))
+				case t.Sort.K == smt.KInt:
+					line += fmt.Sprintf(" %d", bits)
+				default:
+					line += fmt.Sprintf(" f%d", bits)
+				}
+			case string:
+				line += " " + t
+			default:
+				line += " ?"
+			}
+		}
+		v.Observe = append(v.Observe, line)
+	}
 	v.Sched = append(v.Sched, e.sched...)
 	return v
 }
